@@ -104,7 +104,7 @@ class SeriesVal:
         self.space = space
         self._at = at  # z3 Int term -> Sym
         self._null = null  # z3 Int term -> z3 Bool
-        self._sel = sel or (lambda i: z3.BoolVal(True))
+        self._sel = sel or _always
         self.name = name
         self.kind = kind
         self.dtype_ = dtype
@@ -338,7 +338,9 @@ class SeriesVal:
             store[key] = picked
         picked = store[key]
         nn = _term(n)
-        return self.derive(sel=lambda i: z3.And(self._sel(i), picked(rs, nn, i)))
+        r = self.derive(sel=lambda i: z3.And(self._sel(i), picked(rs, nn, i)))
+        r._unordered = True
+        return r
 
     def map(self, fn):
         I = cur().ghost["interp"]
@@ -383,7 +385,7 @@ class SeriesVal:
         return cur().ghost["interp"].call(f, [self])
 
     def pyvc_len(self):
-        raise Unsupported("len(series view)")
+        return view_len(self)
 
     def pyvc_havoc(self, name):
         return SeriesVal.fresh(name + "'", self.kind)
@@ -392,6 +394,25 @@ class SeriesVal:
     def same_rows_as(self, other):
         i = _i()
         return SBool(z3.ForAll([i], self.sel(i) == other.sel(i)))
+
+
+def _always(i):
+    return z3.BoolVal(True)
+
+
+def view_len(v):
+    """len(view): exactly n for an unfiltered view, else a count c with the axioms
+    0 <= c <= n, c == n <=> every base row selected, c == 0 <=> no row selected"""
+    if v._sel is _always:
+        return v.space.n
+    c = core.sym_int("count")
+    i = _i()
+    n = v.space.n.z
+    cur().assume(z3.And(c.z >= 0, c.z <= n))
+    cur().assume((c.z == n) == z3.ForAll([i], z3.Implies(v.space.inb(i), v._sel(i))))
+    j = _i()
+    cur().assume((c.z == 0) == z3.Not(z3.Exists([j], v.sel(j))))
+    return c
 
 
 class _Loc:
@@ -614,7 +635,29 @@ class _NotDupMask:
         cv = self.cv
         p0 = cv.parts[0]
         space = cv.space
-        before = z3.Function(cur().fresh_name("concat_before"), z3.IntSort(), z3.IntSort(), z3.BoolSort())
+        # concatenation order of first occurrences: parts in list order; inside a head/tail part rows come in
+        # position order; inside a sample part in an arbitrary order `rank` (ties broken by position, which makes
+        # `before` a strict total order without any quantified axiom).
+        rank = z3.Function(cur().fresh_name("sample_rank"), z3.IntSort(), z3.IntSort())
+        ordered = [p for p in cv.parts if not getattr(p, "_unordered", False)]
+        unordered = [p for p in cv.parts if getattr(p, "_unordered", False)]
+        if unordered and cv.parts[-1] is not unordered[0] or len(unordered) > 1:
+            raise Unsupported("concat with a sample part that is not last")
+        # head rows precede tail rows and both are ascending: for rows of ordered parts, first-occurrence order is
+        # position order provided the parts are listed as [head][tail] (checked: sel of part k implies no later row
+        # belongs only to an earlier part is NOT assumed; we encode the order per part index instead)
+        def first_part(i):
+            # index of the first part containing row i (len(parts) if none)
+            e = z3.IntVal(len(cv.parts))
+            for k in reversed(range(len(cv.parts))):
+                e = z3.If(cv.parts[k]._sel(i), z3.IntVal(k), e)
+            return e
+
+        def before(j, i):
+            pj, pi = first_part(j), first_part(i)
+            in_unordered = z3.BoolVal(False) if not unordered else (pj == len(cv.parts) - 1)
+            within = z3.If(in_unordered, z3.Or(rank(j) < rank(i), z3.And(rank(j) == rank(i), j < i)), j < i)
+            return z3.Or(pj < pi, z3.And(pj == pi, within))
 
         def in_union(i):
             return z3.Or(*[p._sel(i) for p in cv.parts])
@@ -624,11 +667,6 @@ class _NotDupMask:
             return z3.And(in_union(i), z3.Not(z3.Exists([j], z3.And(space.inb(j), in_union(j), j != i,
                                                                     space.label_fn(j) == space.label_fn(i), before(j, i)))))
 
-        # totality of `before` between distinct rows (one of two equal-labelled rows comes first)
-        a, b = _i("a"), _i("b")
-        cur().assume(z3.ForAll([a, b], z3.Implies(a != b, z3.Xor(before(a, b), before(b, a)))))
-        if isinstance(p0, FrameVal):
-            return p0.derive(sel=sel)
         return p0.derive(sel=sel)
 
 
@@ -641,7 +679,7 @@ class FrameVal:
         self.space = space
         self.col_fn = col_fn
         self.has_col = has_col
-        self._sel = sel or (lambda i: z3.BoolVal(True))
+        self._sel = sel or _always
         self.name = name
         self.cols = {}
 
@@ -716,7 +754,9 @@ class FrameVal:
             store[key] = z3.Function(cur().fresh_name("picked"), z3.IntSort(), z3.IntSort(), z3.IntSort(), z3.BoolSort())
         picked = store[key]
         nn = _term(n)
-        return self.derive(sel=lambda i: z3.And(self._sel(i), picked(rs, nn, i)))
+        r = self.derive(sel=lambda i: z3.And(self._sel(i), picked(rs, nn, i)))
+        r._unordered = True
+        return r
 
     @property
     def index(self):
@@ -728,6 +768,9 @@ class FrameVal:
 
     def pipe(self, f):
         return cur().ghost["interp"].call(f, [self])
+
+    def pyvc_len(self):
+        return view_len(self)
 
     def same_rows_as(self, other):
         i = _i()
